@@ -168,6 +168,62 @@ def case(part, item):
                                f'[{sname}]: {vs[0][1]}',
                                {**det, 'all': [t for _, t in vs[:5]]})
             part.seen('crash_points', (name, c, include, compute))
+        # a state kept in memory (not copied) while training continues must
+        # not change, and rolling back to it must restore it exactly
+        import zlib
+        kept_family = ((1, 2), (2, 1), (0, 2)) if cfg['world'] == 1 else \
+            (((1, 2),) if zlib.crc32(name.encode()) % 2 == 0 else ())
+        for c, k in kept_family:
+            if c + k > T:
+                continue
+            hist = [['train']] * c + [['keep']] + [['train']] * k + \
+                [['loadkept', True]] + [['train']] * (T - c - k)
+            cc = dict(cfg, history=hist)
+            det = {'cfg': cc, 'schedule': sname, 'T': T, 'kept': True}
+            try:
+                res, bad = run_real(cc, sname)
+                ref = K.reference(cc)
+            except Exception as e:  # noqa
+                part.violation(f'exception:{type(e).__name__}:kept',
+                               f'{name} keep at {c}, roll back after {k} '
+                               f'more steps [{sname}]: {e}', det)
+                continue
+            part.count('executions')
+            part.count('evaluations')
+            if bad:
+                part.violation(f'{bad[0][0]}:kept', f'{name}: {bad[0][1]}',
+                               det)
+                continue
+            vs = []
+            for r, rec in enumerate(res):
+                sv = rec[c]['saved']
+                ev = rec[c + 1 + k]
+                for what, st in (('kept state after the run continued',
+                                  ev['kept_now']),
+                                 ('state after loading the kept state',
+                                  ev['loaded'])):
+                    if st['steps'] != sv['steps']:
+                        vs.append(('kept-steps', f'rank{r}: {what}: steps '
+                                   f'{st["steps"]} != {sv["steps"]}'))
+                    for nm, lay in sv['layers'].items():
+                        for fk in 'AG':
+                            a, b = lay[fk], st['layers'][nm][fk]
+                            if (a is None) != (b is None) or (
+                                    a is not None and not torch.equal(a, b)):
+                                vs.append(('kept-factor', f'rank{r}: {what}:'
+                                           f' factor {nm}.{fk} is not the '
+                                           'one that was saved'))
+                for e2, r2 in zip(rec[c + 2 + k:], ref[c + 2 + k:]):
+                    vs += O.grads_vs_ref(cc, e2, r2, f'rank{r}: ')
+                if vs:
+                    break
+            if vs:
+                kinds = '+'.join(sorted({k_ for k_, _ in vs}))
+                part.violation(f'{kinds}:kept:{K.method_of(cfg)}',
+                               f'{name} keep at step {c}, roll back after '
+                               f'{k} more steps [{sname}]: {vs[0][1]}',
+                               {**det, 'all': [t for _, t in vs[:5]]})
+            part.seen('crash_points', (name, 'kept', c, k))
     part.seen('nontrivial', name)
 
 
@@ -255,7 +311,9 @@ def main(run: core.Run):
         'compared bit-exactly on every rank, continuation compared with '
         'RefKFAC and - when the live second-order data derived from the '
         'saved factors or is refreshed next - with the uninterrupted real '
-        'run; simdist matching/stall oracle on every execution; distinct '
+        'run; additionally a state kept in memory (uncopied) while training '
+        'continues and then rolled back to must be unchanged; simdist '
+        'matching/stall oracle on every execution; distinct '
         'non-trivial = (configuration, crash point, flags) triples')
     run.sample({'config': name_of(cfgs[0]), 'crash_points': list(range(T + 1)),
                 'flags': [[True, True], [True, False], [False, True]]})
